@@ -116,7 +116,29 @@ func c15r1(w *World, rr *RuleRun) {
 		if needIP {
 			// the normaliser closure(s) of MarshalBinary: To4 / To16 applied to the element's IP
 			if mb != nil {
-				for _, f := range append([]*ssa.Function{mb}, allAnon(mb)...) {
+				// MarshalBinary, its closures, and named module functions it hands on as values
+				norms := append([]*ssa.Function{mb}, allAnon(mb)...)
+				eachInstr([]*ssa.Function{mb}, func(_ *ssa.Function, ins ssa.Instruction) {
+					c := callInstrCommon(ins)
+					if c == nil {
+						return
+					}
+					for _, a := range c.Args {
+						var f *ssa.Function
+						switch x := a.(type) {
+						case *ssa.Function:
+							f = x
+						case *ssa.ChangeType:
+							f, _ = x.X.(*ssa.Function)
+						case *ssa.MakeClosure:
+							f, _ = x.Fn.(*ssa.Function)
+						}
+						if f != nil && f.Parent() == nil && w.P.IsLib(f) && len(f.Blocks) > 0 {
+							norms = append(norms, f)
+						}
+					}
+				})
+				for _, f := range norms {
 					for _, b := range f.Blocks {
 						for _, ins := range b.Instrs {
 							if c := callInstrCommon(ins); c != nil {
